@@ -341,6 +341,16 @@ def run_shard(spec, acc):
                 judge_case(dbx, dec, d, label, payload, nb, acc)
                 acc.cover("value_classes", label.split(":")[-1])
             lookup_audit(dbx, dec, d, rng, acc, audited)
+            # near misses of the definition's match values (one bit of one match field flipped): whatever the database
+            # prescribes for that payload - usually the catch-all definition, or nothing - is what must come back
+            if d.match_fields:
+                base_near = dbx.pack(d, gen.base_raws(d, rng, dbx))
+                nb_near = d.length if d.length is not None else (d.total_bits() + 7) // 8
+                for f in d.match_fields:
+                    for b in range(f.bits):
+                        p2 = base_near ^ (1 << (f.off + b))
+                        judge_case(dbx, dec, d, f"{f.id}:match-value-one-bit-off", p2, nb_near, acc)
+                        acc.count("near_miss_match_payloads")
             if not quick:
                 exhaustive_small_fields(dbx, dec, d, rng, acc)
         else:
